@@ -61,6 +61,9 @@ type TaskProg struct {
 	// Spec: when set, the task does not read a document: its cue list is built in code from this description
 	// (values no reader of this library produces: a language nobody registered, one colour field only, ...).
 	Spec *corpus.ListSpec `json:"spec,omitempty"`
+	// Many: when set, the list is corpus.ManyCues(Many) - large enough for the size thresholds of writers and
+	// transformations (worker pools, batches) to be crossed while other tasks run
+	Many int `json:"many,omitempty"`
 }
 
 // c20Dir is the directory file steps use; set before a scenario starts, read-only while tasks run.
@@ -127,7 +130,9 @@ func execTaskAt(p TaskProg, tag string) (rec []string) {
 	var s *astisub.Subtitles
 	var err error
 	var pn string
-	if p.Spec != nil {
+	if p.Many > 0 {
+		s = corpus.ManyCues(p.Many).Build()
+	} else if p.Spec != nil {
 		s = p.Spec.Build()
 	} else if p.OpenExt != "" && c20Dir != "" {
 		// the same document is the same file for every task of the scenario: independent callers may well open one file
@@ -788,7 +793,8 @@ func buildDocPool(cfg Config) (*docPool, error) {
 		}
 	}
 	// documents with hundreds of cues (size thresholds inside readers and writers)
-	p.docs = append(p.docs, corpus.LargeTTML(root.Derive("c20-large-ttml", 0), 300), corpus.Large("srt", root.Derive("c20-large-srt", 0), 40000))
+	p.docs = append(p.docs, corpus.LargeTTML(root.Derive("c20-large-ttml", 0), 300), corpus.Large("srt", root.Derive("c20-large-srt", 0), 40000),
+		corpus.Large("stl", root.Derive("c20-large-stl", 0), 45000), corpus.Large("ssa", root.Derive("c20-large-ssa", 0), 40000), corpus.Large("vtt", root.Derive("c20-large-vtt", 0), 40000))
 	// TTML documents that differ only in their (unknown) language tag, pairwise sharing the primary subtag
 	for _, tag := range []string{"pt-PT", "pt-BR", "de-AT", "de-CH"} {
 		p.docs = append(p.docs, corpus.Doc{Name: "ttml-lang-" + tag, Format: "ttml", Data: []byte(`<?xml version="1.0" encoding="UTF-8"?>
@@ -881,7 +887,20 @@ func genTask(r *prng.R, pool *docPool, idx int, theme string) TaskProg {
 		t.Spec, t.OpenExt = &l, ""
 		t.Name = "t" + strconv.Itoa(idx) + ":" + l.Name
 	}
+	if r.Bool(0.04) && theme != "samefile" && theme != "missing" { // a long plain list: size thresholds of writers and transformations
+		t.Many, t.Spec, t.OpenExt, t.Doc = r.PickInt(300, 1100, 4200), nil, "", nil
+		t.Name = "t" + strconv.Itoa(idx) + ":many-" + strconv.Itoa(t.Many)
+	}
 	t.Ops = genOps(r)
+	if t.Many > 0 { // no Fragment / ForceDuration on thousands of cues (quadratic), at most two ops
+		var ops []api.Op
+		for _, op := range t.Ops {
+			if op.Name != "fragment" && op.Name != "forceduration" && len(ops) < 2 {
+				ops = append(ops, op)
+			}
+		}
+		t.Ops = ops
+	}
 	if t.Spec != nil && t.Spec.ExtremeTimes() {
 		var ops []api.Op
 		for _, op := range t.Ops {
